@@ -118,7 +118,11 @@ class StaticAsset:
                     self.diagnostics.append(ImageSizeUndetermined(str(self.path), 0))
                 else:
                     self.dimensions = (float(width), float(height))
-            except ValueError:
+            except OSError:
+                raise
+            except Exception:
+                # imagesize reports most damaged images with ValueError, but lets e.g.
+                # struct.error and IndexError escape for truncated headers
                 self.diagnostics.append(ImageSizeUndetermined(str(self.path), 0))
 
 
